@@ -336,7 +336,14 @@ def restart_json(world, rep, op):
     else:
         want_directed = m.directed
     args = (data2,) if flag is None else (data2, bool(flag))
-    st, h = call(json_graph.node_link_graph, *args, **({'attrs': attrs} if idk != 'id' or op.get('pass_attrs') else {}))
+    akw = {'attrs': attrs} if idk != 'id' or op.get('pass_attrs') else {}
+    if op.get('drop_directed_key') and op.get('twice'):
+        # the same parsed dict is first rebuilt with the opposite argument (outcome not judged: rebuilding
+        # directed data as undirected may legitimately be rejected), then with the wanted one
+        call(json_graph.node_link_graph, data2, not want_directed, **akw)
+        world.count('restart.json.same-dict-twice')
+    before = copy.deepcopy(data2)
+    st, h = call(json_graph.node_link_graph, *args, **akw)
     if st != 'ok':
         raise Violation(tag + '.graph', 'raises', {'op': op, 'exc': exc_class(h), 'msg': str(h)[:200]})
     hm = ModelGraph(want_directed, True)
@@ -366,6 +373,24 @@ NOISE = {
     'short2': lambda d: (d or ' ').join(['x', 'y']),
     'comment2': lambda d: '# first remark # second remark',
 }
+
+
+def _lookup_conv(x):
+    # a user-supplied converter whose failure is a KeyError, not a ValueError
+    if x.strip().lstrip('+-').isdigit():
+        return int(x)
+    return {}[x]
+
+
+def _fraction_conv(x):
+    # a user-supplied converter that goes through Fraction (ZeroDivisionError / ValueError on junk)
+    from fractions import Fraction
+    if not x.strip().lstrip('+-').isdigit():
+        return int(Fraction('1/0'))
+    return int(Fraction(x))
+
+
+CONVERTERS = {'int': int, 'lookup': _lookup_conv, 'fraction': _fraction_conv}
 
 
 def render_rows(op):
@@ -459,11 +484,12 @@ def do_parse(world, rep_unused, op):
     fmt, directed = op['fmt'], bool(op.get('directed'))
     noisy, clean = render_rows(op)
     d = op.get('delimiter')
-    nodetype = int if op.get('nodekind', 'int') == 'int' else None
+    conv = CONVERTERS[op.get('conv', 'int')]
+    nodetype = conv if op.get('nodekind', 'int') == 'int' else None
     enc = op.get('encoding', 'utf-8')
     parse = dn.parse_snapshots if fmt == 'snapshots' else dn.parse_interactions
     read = dn.read_snapshots if fmt == 'snapshots' else dn.read_interactions
-    kw = {'directed': directed, 'nodetype': nodetype, 'timestamptype': int}
+    kw = {'directed': directed, 'nodetype': nodetype, 'timestamptype': conv}
     if d is not None:
         kw['delimiter'] = d
     via = op.get('via', 'parse')
